@@ -44,7 +44,16 @@ func VerifC02MapOrder() {
 	keys := []string{"b", "a", "c"}[:n]
 	var m any
 	v := []int{nd.IntIn(0, 9), nd.IntIn(0, 9), nd.IntIn(0, 9)}
-	switch nd.Choice(3) {
+	switch nd.Choice(4) {
+	case 3: // keys are solver variables too: pairwise distinct strings over a small alphabet
+		k1, k2 := nd.StringFrom(1, "aAbB_1"), nd.StringFrom(1, "aAbB_1")
+		nd.Assume(k1 != k2)
+		mm := map[string]any{k1: v[0], k2: v[1]}
+		if n == 3 {
+			mm["Ab"] = v[2]
+		}
+		m = mm
+		nd.SymOrderMap(mm)
 	case 0:
 		mm := map[string]any{}
 		for i, k := range keys {
